@@ -41,6 +41,7 @@ type Engine struct {
 
 	idMu    sync.Mutex
 	typeIDs map[string]int
+	typeByID map[int]types.Type
 	strIDs  map[string]int
 	kindIDs map[string]int
 
@@ -48,6 +49,7 @@ type Engine struct {
 	astFiles map[string]*ast.File
 	srcCache map[string][]byte
 
+	autoPosts sync.Map
 	boxes    sync.Map
 	closures sync.Map
 
@@ -125,7 +127,7 @@ func newEngine(repo string) *Engine {
 	return &Engine{repo: repo, modPath: "github.com/gopacket/gopacket",
 		contracts: map[string]*Contract{}, specs: map[string]*SpecFn{}, specsByName: map[string]*SpecFn{}, ifaceCts: map[string]*Contract{}, externCts: map[string]*Contract{},
 		keyInfo: map[string]keyInfo{}, mods: map[*ssa.Function]*ModSet{}, inl: map[*ssa.Function]bool{},
-		typeIDs: map[string]int{}, strIDs: map[string]int{}, kindIDs: map[string]int{},
+		typeIDs: map[string]int{}, typeByID: map[int]types.Type{}, strIDs: map[string]int{}, kindIDs: map[string]int{},
 		astFiles: map[string]*ast.File{}, srcCache: map[string][]byte{},
 		derived: map[string]bool{}, inlined: map[string]bool{}, externals: map[string]bool{}, invokes: map[string]bool{}, ctUsed: map[string]bool{},
 		fnByKey: map[string]*ssa.Function{}, spkgs: map[string]*ssa.Package{}, implC: map[string][]*ssa.Function{}, pw: map[*ssa.Function]map[int]bool{}, pbU: map[*ssa.Function]map[string]bool{}, nonNilG: map[*ssa.Global]bool{}}
@@ -234,7 +236,7 @@ func (e *Engine) computeAllMods() {
 			n := newModSet()
 			for _, b := range f.Blocks {
 				for _, in := range b.Instrs {
-					e.instrMods(n, in, f)
+					e.instrMods(n, in, f, nil)
 				}
 			}
 			if m.add(n) {
@@ -284,6 +286,7 @@ func (e *Engine) typeID(t types.Type) int {
 	}
 	id := len(e.typeIDs) + 1
 	e.typeIDs[s] = id
+	e.typeByID[id] = t
 	return id
 }
 
